@@ -334,4 +334,13 @@ theorem stackAlloc0_room {H tc : Nat} (h : H + 2 â‰¤ 2 * tc) : H + 2 + tc * 4 â‰
   have := (stackAlloc0_ge tc).2
   omega
 
+/-- `n` iterations from `s` with the length of `runstack` (the modelled `if` of `ensureStorage` at every storage check);
+    used to exhibit concrete reachable states in the non-vacuity examples of Props/C13 -/
+def stackRunN (tc : Nat) (p : Prog) (env : VM.Env) : Nat â†’ VM.VMState â†’ Nat â†’ Option (VM.VMState Ã— Nat)
+  | 0, s, cap => some (s, cap)
+  | n + 1, s, cap =>
+    match VM.step p env s with
+    | .next s' chk => stackRunN tc p env n s' (if chk then Capacity.stackEnsure tc cap s'.stack.length else cap)
+    | _ => none
+
 end RegexVerif.Lemmas.StackHeightEmit
